@@ -8,6 +8,7 @@ import PygVerif.Model.Umn
 import PygVerif.Model.Cache
 import PygVerif.Model.Fail
 import PygVerif.Model.Zip
+import PygVerif.Model.ZipTree
 import PygVerif.Model.Frame
 import PygVerif.Model.Site
 import PygVerif.Model.Serve
@@ -362,6 +363,24 @@ def step (fields : List String) : String :=
          (match Zip.listdir ix q with
           | some l => encList l
           | none => "!")))
+  | ["ziptree", members, queries] =>
+    -- the same answers read off the tree the index stands for (`toTree`, unfolded two levels deeper than the path)
+    let ms : List Zip.Member := if members == "~" then [] else (members.splitOn " ").filterMap fun r =>
+      match r.splitOn ";" with
+      | [n, o, l, d] => some { name := decStr n, orig := decStr o, isLink := l == "L", dest := decStr d }
+      | _ => none
+    (match Zip.buildIndex ms with
+     | none => "CRASH"
+     | some ix =>
+       " ".intercalate ((decList queries).map fun q =>
+         let comps := if q.isEmpty then [] else splitOn 47 q
+         if comps.any (fun c => c.isEmpty || c == [46]) then "~" else
+         match lwalk (Zip.toTree ix (fun o => o) (comps.length + 2) []) comps with
+         | some (.dir kids) => "d|" ++ encList (kids.map (·.1))
+         | some (.file d) => "f:" ++ encStr d ++ "|!"
+         | some .other => "o|!"
+         | none => "-|!"))
+  | ["inarchive", z, s] => encBool (Zip.inArchive (decStr z) (decStr s))
   | ["normpath", s] => encStr (Zip.normpath (decStr s))
   | ["pathsplit", s] => let (a, b) := Zip.pathSplit (decStr s); encStr a ++ "\t" ++ encStr b
   | ["respond", wire, head, kind, a, b, c] =>
